@@ -335,18 +335,51 @@ func c17RehashAll(c *Ctx) {
 		return
 	}
 	for _, w := range c.workerClosures(fn) {
-		segs := calls(w, named("desync.newFileSeedSegment"))
+		// where the worker builds its segment: a call of the constructor, or the composite literal
+		// written out (a store to the chunks field of a fileSeedSegment of its own)
+		type segSite struct {
+			at     ssa.Instruction
+			chunks ssa.Value
+			obj    ssa.Value // the segment: the constructor's result or the literal's storage
+		}
+		var segs []segSite
+		for _, cs := range calls(w, named("desync.newFileSeedSegment")) {
+			segs = append(segs, segSite{cs.(ssa.Instruction), cs.Common().Args[1], cs.Value()})
+		}
+		for _, g := range fnsDeep(w) {
+			instrs(g, func(_ *ssa.BasicBlock, _ int, ins ssa.Instruction) {
+				if st, ok := ins.(*ssa.Store); ok && ins.Parent() == g {
+					if fa, ok := st.Addr.(*ssa.FieldAddr); ok && fieldOf(fa) == "fileSeedSegment.chunks" && fnKey(g) != "newFileSeedSegment" {
+						segs = append(segs, segSite{st, st.Val, fa.X})
+					}
+				}
+			})
+		}
 		if len(segs) != 1 {
 			c.bad("VerifyIndex.worker:segment", w.Pos(), "the worker does not build exactly one fileSeedSegment per batch")
 			continue
 		}
-		a := segs[0].Common().Args
-		whole := onlyOrigins(a[1], func(o string) bool {
+		chunksVal := segs[0].chunks
+		whole := onlyOrigins(chunksVal, func(o string) bool {
 			return strings.HasPrefix(o, "recv:") || o == "next" || strings.HasPrefix(o, "tuple:")
-		}) && !hasOrigin(a[1], func(o string) bool { return o == "subslice" })
-		c.verdict(whole, "VerifyIndex.worker:whole-batch", segs[0].Pos(), "the whole received batch becomes the segment", fmt.Sprintf("the segment is not the whole received batch (origins %v)", origins(a[1])))
+		}) && !hasOrigin(chunksVal, func(o string) bool { return o == "subslice" })
+		c.verdict(whole, "VerifyIndex.worker:whole-batch", segs[0].at.Pos(), "the whole received batch becomes the segment", fmt.Sprintf("the segment is not the whole received batch (origins %v)", origins(chunksVal)))
 		vals := calls(w, suffixed("fileSeedSegment).Validate"))
-		okV := len(vals) == 1 && hasOrigin(vals[0].Common().Args[0], func(o string) bool { return o == "call:desync.newFileSeedSegment#0" })
+		okV := false
+		if len(vals) == 1 {
+			recv := vals[0].Common().Args[0]
+			if hasOrigin(recv, func(o string) bool { return o == "call:desync.newFileSeedSegment#0" }) {
+				okV = true
+			}
+			for _, l := range leaves(recv) {
+				if segs[0].obj != nil && l == segs[0].obj {
+					okV = true
+				}
+			}
+			if recv == segs[0].obj {
+				okV = true
+			}
+		}
 		c.verdict(okV, "VerifyIndex.worker:validates", w.Pos(), "the segment is validated", "the segment built from the batch is not validated")
 		sites, bad := errPropagates(c, w, func(name string, _ *ssa.Call) bool { return strings.HasSuffix(name, "fileSeedSegment).Validate") }, errPropOpts{maxVisits: 3})
 		if len(bad) > 0 || sites == 0 {
@@ -376,6 +409,18 @@ func c17SegmentKeepsAll(c *Ctx) {
 				return
 			}
 			n++
+			// the rule is about a constructor (a function that is handed the list): a composite
+			// literal written at the place of use stores what that place has, nothing is cut there
+			ctor := false
+			for _, l := range leaves(st.Val) {
+				if _, isP := stripSlices(l).(*ssa.Parameter); isP {
+					ctor = true
+				}
+			}
+			if !ctor && fnKey(topOf(fn)) != "newFileSeedSegment" {
+				c.info(fnKey(fn)+":fileSeedSegment.chunks", ins.Pos(), "segment literal at the place of use")
+				return
+			}
 			whole := true
 			why := ""
 			for _, l := range leaves(st.Val) {
@@ -411,6 +456,13 @@ func c17SegmentKeepsAll(c *Ctx) {
 			if len(calls(g, named("desync.newFileSeedSegment"))) > 0 {
 				okB = true
 			}
+			instrs(g, func(_ *ssa.BasicBlock, _ int, ins ssa.Instruction) {
+				if st, ok := ins.(*ssa.Store); ok {
+					if fa, ok := st.Addr.(*ssa.FieldAddr); ok && fieldOf(fa) == "fileSeedSegment.chunks" {
+						okB = true
+					}
+				}
+			})
 		}
 		c.verdict(okB, "VerifyIndex:segment-from-batch", fn.Pos(), "each batch is validated through a fileSeedSegment", "VerifyIndex no longer validates its batches through newFileSeedSegment")
 	}
